@@ -104,6 +104,10 @@ HookBreaker(nd)  == nd.a = "Hook" /\ nd.args.breaker /\ nd.args.ref > 0 /\ HookA
 HookRefActs(nd)  == nd.a = "Hook" /\ nd.args.ref = nd.id /\ HookActed(nd)
 HookRef(nd)      == nd.a = "Hook" /\ nd.args.ref = nd.id
 IsState(nd)      == nd.a = "State"
+(* evidence notes (observed, never judged): messages reported as successful that changed nothing at all, and rejected
+   messages whose handler had already written before failing (nothing-changed then rests on transaction atomicity) *)
+OkNoEffect(nd)   == nd.a \in {"Own", "Ctl"} /\ nd.res.ok /\ Same(nd)
+RejectedDirty(nd) == nd.a \in {"Own", "Ctl"} /\ ~nd.res.ok /\ nd.st.dirty
 (* breadth of the non-vacuity witnesses: how many rows / variants / hooks were seen succeeding without the guard *)
 OwnWitnessed  == {Nd(i).args.msg : i \in {j \in 1..NLog : OwnOwnerOk(Nd(j))}}
 PrivWitnessed == {Nd(i).args.v : i \in {j \in 1..NLog : PrivAccepted(Nd(j))}}
@@ -118,6 +122,7 @@ Stats == PrintT(<<"STATS", [nodes |-> NLog, states |-> Cnt(IsState), own |-> Cnt
            ctlBreaker |-> Cnt(CtlBreaker), ctlShutdown |-> Cnt(CtlShutdown), ctlCoolOff |-> Cnt(CtlCoolOff),
            ctlCoolWitness |-> Cnt(CtlCoolWitness), ctlPrice |-> Cnt(CtlPrice), ctlRef |-> Cnt(CtlRef), ctlRefOk |-> Cnt(CtlRefOk),
            ctlFreeOk |-> Cnt(CtlFree), hookBreaker |-> Cnt(HookBreaker), hookRef |-> Cnt(HookRef), hookRefActs |-> Cnt(HookRefActs),
+           noteOkNoEffect |-> Cnt(OkNoEffect), noteRejectedAfterWrites |-> Cnt(RejectedDirty),
            ownRows |-> Cardinality(OwnerRows), ownRowsWitnessed |-> Cardinality(OwnWitnessed),
            variants |-> Cardinality(Variants), variantsWitnessed |-> Cardinality(PrivWitnessed),
            ctlHandlers |-> Cardinality(CtlAll), ctlHandlersWitnessed |-> Cardinality(CtlWitnessed),
